@@ -107,6 +107,13 @@ def _always_returns(body: List[ast.stmt]) -> bool:
     return False
 
 
+def _leaves(body: List[ast.stmt]) -> bool:
+    """the block never falls through to the statement after it (return / raise / continue / break at its end)"""
+    if body and isinstance(body[-1], (ast.Continue, ast.Break)):
+        return True
+    return _always_returns(body)
+
+
 def rule_prop_effects(ctx: Ctx, prog: Program) -> None:
     ctx.rule("R-PROP-EFFECTS")
     eff = get_effects(prog)
@@ -1543,10 +1550,11 @@ def rule_affine_bound(ctx: Ctx, prog: Program) -> None:
                     sg = _sign_of_test(st.test, cn) if cn else None
                     if sg is not None:
                         # a test of the coefficient's sign: the statements that follow are read once per branch (path-sensitive on the sign)
+                        rest = list(stmts[k + 1:])
                         if signs & sg[0]:
-                            walk(list(st.body) + list(stmts[k + 1:]), cn, signs & sg[0], env, ivar)
+                            walk(list(st.body) + ([] if _leaves(st.body) else rest), cn, signs & sg[0], env, ivar)
                         if signs & sg[1]:
-                            walk(list(st.orelse) + list(stmts[k + 1:]), cn, signs & sg[1], env, ivar)
+                            walk(list(st.orelse) + ([] if _leaves(st.orelse) else rest), cn, signs & sg[1], env, ivar)
                         return
                     else:
                         walk(st.body, cn, signs, env, ivar)
